@@ -24,7 +24,7 @@ const epoch = vchain.Epoch
 type history = vchain.History
 
 func build(t *testing.T, idx, nblocks int, srih bool, replay *history) *history {
-	return vchain.BuildHistory(t, vchain.HistoryCfg{Idx: idx, Blocks: nblocks, SRIH: srih, Replay: replay})
+	return vchain.BuildHistory(t, vchain.HistoryCfg{Idx: idx, Blocks: nblocks, SRIH: srih, Replay: replay, Echidna: idx%2 == 1})
 }
 
 type repCfg struct {
